@@ -13,7 +13,7 @@ from pyvc.values import BoundMethod, Closure, ExcV, HObj, Opaque, Opt, Ref, U, f
 
 from .a_common import F, UT, is_none
 from .a_submit import CFG, CP, DE, DL, MG, UP
-from .a_tasks import T, TASK, TC, calls, exts, flat, index_of, trivial_loop
+from .a_tasks import T, TASK, TC, calls, exts, flat, index_of, trivial_loop, only_propagates
 from .spec import b2z, implies
 
 B = z3.BoolVal
@@ -196,7 +196,7 @@ def register(R):
         return {'write_task_goes_to_the_io_executor': (B(bool(okk)), ['C10', 'C02'])}
 
     cq = R.contracts[f'{DOM}.queue_file_io_task']
-    cq.checks, cq.raises, cq.props = io_submit_checks, {'Exception': lambda c: {}}, ('C10', 'C02')
+    cq.checks, cq.raises, cq.props = io_submit_checks, {'Exception': only_propagates}, ('C10', 'C02')
     cq.inline_callees = (f'{DOM}.get_io_write_task',)
     R.mark_inline(f'{DOM}.get_io_write_task#') if False else None
 
